@@ -15,7 +15,7 @@ from vlib.core import Stage, fail
 ID = "C14"
 MANIFEST = {
     "category": "exploration",
-    "text": "Generated-input search with a metamorphic oracle: deep AHBs in which SOLL (all spellings and letter cases) is forced to occur at groups, segments and free-text data elements x content evaluation results x both flag values. The full ValidationResultInContext list of validate_deep_anwendungshandbuch(tree, flag) must equal the one for the tree with every SOLL rewritten to MUSS (flag True) resp. KANN (flag False), under either flag value; or all three raise NotImplementedError. The same relation is checked for validate_segment_level / validate_segment on drawn sub-trees.",
+    "text": "Generated-input search with a metamorphic oracle: deep AHBs in which SOLL (all spellings and letter cases) is forced to occur at groups, segments and free-text data elements x content evaluation results x both flag values. The full ValidationResultInContext list of validate_deep_anwendungshandbuch(tree, flag) must equal the one for the tree with every SOLL rewritten to MUSS (flag True) resp. KANN (flag False), under either flag value; or all three raise NotImplementedError. The same relation is checked for validate_segment_level / validate_segment on drawn sub-trees. For flag True the same calls are repeated with the argument left out (documented default True) at validate_deep_anwendungshandbuch, validate_segment_level and validate_segment_group.",
     "note": "Trusted: the indicator rewrite (done on the structured parts, re-rendered by the same renderer) and attrs equality of the result objects. No reference model is involved. Process configuration by shard (vlib/sut.py; recorded in replay files): plain / parse caches preheated beyond their size / warnings attributed to ahbicht raised as errors / logging fully enabled with every record rendered; one event loop per process or a new one per call; five process time zones; the hash seed is the shard number; namesakes of ahbicht's marshmallow schema classes are registered.",
     "technique": "property-based testing with a metamorphic relation (flag value vs rewritten indicators)",
 }
@@ -114,6 +114,23 @@ def check(case):
     target = "MUSS" if flag else "KANN"
     _same(base, same_flag, f"soll_is_required={flag} vs SOLL rewritten to {target}")
     _same(base, other_flag, f"soll_is_required={flag} vs SOLL rewritten to {target} validated with soll_is_required={not flag}")
+    # the documented default of the flag is True ("true (default) if SOLL should be handled like MUSS"), at every
+    # entry point: leaving the argument out must give what soll_is_required=True gives
+    if flag:
+        from ahbicht.validation.validation import validate_segment_group
+
+        first_group = tree["groups"][0]
+        for name, call_default, call_explicit in (
+            ("validate_deep_anwendungshandbuch", lambda: deep(vtree.build(tree)), lambda: deep(vtree.build(tree), True)),
+            ("validate_segment_level", lambda: level(vtree.build_group(first_group)), lambda: level(vtree.build_group(first_group), True)),
+            ("validate_segment_group", lambda: validate_segment_group(vtree.build_group(first_group)),
+             lambda: validate_segment_group(vtree.build_group(first_group), None, True)),
+        ):  # fmt: skip
+            vtree.setup(tree, cer)
+            default = sut.call(call_default)
+            vtree.setup(tree, cer)
+            explicit = sut.call(call_explicit)
+            _same(explicit, default, f"{name}: soll_is_required=True vs the argument left out (documented default True)")
     # sub-trees
     candidates = [(kind, node) for kind, node, _ in vtree.nodes(tree) if kind in ("group", "seg")]
     rewritten_nodes = {node["d"]: node for _, node, _ in vtree.nodes(rewritten)}
